@@ -354,6 +354,79 @@ theorem pk_frame (cfg : Cfg) (st : State) (tx : Tx) (j : Bytes) (hj : j ≠ txTa
 example : (run toyCfg funded [.tx (.apply addr1 [0x11] 0 800 [] [7] [1]), .tx (.apply addr2 [0x11] 0 800 [] [9] [1])]).pkOf [0x11]
     = some [7] := by decide
 
+/-- "After any history — including executed-and-discarded blocks — the cached public key of a registered miner
+    is the one in its registry record": what the consensus layer relies on when it reads `GetPubkey`. -/
+def FullStatementPkCacheFollowsRegistry : Prop :=
+  ∀ cfg committed st d id info, getMinerById cfg (rewind committed st) d id ≠ none →
+    cfg.dec (((rewind committed st).live d).get id) = some info → (rewind committed st).pkOf id = some info.pk
+
+def stCommitted : State := run toyCfg funded [.tx (.apply addr1 [0x11] 0 800 [] [7] [1]), .endBlock 101]
+def stDiscarded : State := run toyCfg stCommitted [.tx (.refund addr1 [0x11] maxU64), .tx (.apply addr1 [0x11] 0 800 [] [9] [1])]
+
+/-- False of the code (finding `pkcache-keeps-discarded-block`): the cache is written during block execution and
+    is not rolled back with the block. Witness: miner 0x11 registered with key 07; a discarded block refunds it
+    completely and re-applies it with key 09: the registry is back to the committed record, `GetPubkey` says 09.
+    (`toyCfg` decodes every record with key 01, which 09 does not equal either.) -/
+theorem pk_cache_counterexample : ¬ FullStatementPkCacheFollowsRegistry := by
+  intro h
+  have hp : getMinerById toyCfg (rewind stCommitted stDiscarded) .val [0x11] ≠ none := by decide
+  obtain ⟨info, hinfo⟩ : ∃ info, toyCfg.dec (((rewind stCommitted stDiscarded).live .val).get [0x11]) = some info :=
+    Option.isSome_iff_exists.mp (by decide)
+  have := h toyCfg stCommitted stDiscarded .val [0x11] info hp hinfo
+  have hk : (rewind stCommitted stDiscarded).pkOf [0x11] = some [9] := by decide
+  have hpk : (toyCfg.dec (((rewind stCommitted stDiscarded).live .val).get [0x11])).map (·.pk) = some [1] := by decide
+  rw [hinfo] at hpk
+  rw [hk] at this
+  simp only [Option.map_some, Option.some.injEq] at hpk this
+  rw [hpk] at this
+  exact absurd this (by decide)
+
+example : stCommitted.pkOf [0x11] = some [7] ∧ (rewind stCommitted stDiscarded).pkOf [0x11] = some [9] := by decide
+
+/-- What rewinding does and does not touch. -/
+theorem rewind_spec (committed st : State) :
+    (rewind committed st).live = committed.live ∧ (rewind committed st).bal = committed.bal ∧
+    (rewind committed st).escrow = committed.escrow ∧ (rewind committed st).pending = committed.pending ∧
+    (rewind committed st).pk = st.pk := ⟨rfl, rfl, rfl, rfl, rfl⟩
+
+/-! ## what the consensus layer reads (consensus/access/miner_access.go) -/
+
+/-- `GetCandidateMiners(h)` on a committed, well-keyed state returns exactly registered validators: each candidate is
+    the record `GetMinerById` returns for its id, is not aborted, is of validator type and was applied before `h`. -/
+theorem candidates_are_registered (cfg : Cfg) (st : State) (h : Nat) (m : Miner) (hf : Flushed st) (hr : RecKeyed cfg st)
+    (hm : m ∈ candidates cfg st h) :
+    getMinerById cfg st .val m.id = some m ∧ m.status ≠ statusAbort ∧ m.typ = typeValidator ∧ m.applyHeight < h := by
+  unfold candidates at hm
+  obtain ⟨hmem, hp⟩ := List.mem_filter.mp hm
+  have hp' : m.status ≠ statusAbort ∧ m.typ = typeValidator ∧ m.applyHeight < h := by simpa using hp
+  exact ⟨iter_to_id cfg st .val m hf hr hmem, hp'⟩
+
+/-- … and every such registered validator is a candidate (nothing is dropped). -/
+theorem registered_are_candidates (cfg : Cfg) (st : State) (h : Nat) (id : Bytes) (m : Miner) (hf : Flushed st) (hr : RecKeyed cfg st)
+    (hm : getMinerById cfg st .val id = some m) (hs : m.status ≠ statusAbort) (ht : m.typ = typeValidator) (ha : m.applyHeight < h) :
+    m ∈ candidates cfg st h := by
+  unfold candidates
+  exact List.mem_filter.mpr ⟨id_to_iter cfg st .val id m hf hr hm, by simp [hs, ht, ha]⟩
+
+/-- "The consensus readers answer on every committed state." -/
+def FullStatementReadersTotal : Prop :=
+  ∀ cfg st, CodecId cfg → RawOK cfg → C20.Reachable cfg st → candidatesPanic cfg st = false
+
+/-- False of the code (finding `reader-panics-on-long-id`): ids are free-form; a registered validator whose id needs
+    more than 32 bytes makes `convert2MinerDO` → `ID.Serialize` panic inside `GetCandidateMiners`. -/
+theorem readers_total_counterexample : ¬ FullStatementReadersTotal := by
+  intro h
+  let longId : Bytes := List.replicate 33 0x33
+  let ops : List Op := [.tx (.apply addr1 longId 0 400 [] [1] [1]), .endBlock 101]
+  have hr : C20.Reachable toyCfg (run toyCfg funded ops) :=
+    ⟨100, _, ops, by
+      intro o ho
+      simp only [ops, List.mem_cons, List.not_mem_nil, or_false] at ho
+      rcases ho with rfl | rfl
+      · exact ⟨by decide, by decide⟩
+      · trivial, rfl⟩
+  exact absurd (h toyCfg _ toy_codecId toy_rawOK hr) (by decide)
+
 /-! ## status follows the stake -/
 
 /-- `AddStake` decides the status on the NEW stake: what it writes into the status slot is `normal` exactly
